@@ -1,12 +1,116 @@
 (* C08 — Segment id generators never repeat an id across generators, restarts, faults.
-   This file holds only the property theorems. *)
-From Coq Require Import ZArith List Bool.
+   This file holds only the property theorems; each is closed by an exact lemma and followed
+   by Print Assumptions.
+
+   Vocabulary (C08/Model.v): a history is a list of events [ENew g step | EInit g a |
+   ENext g a | ECrash g] over any number of generators g sharing one counter store; [a] is the
+   answer the store gives if Storage.Incr is called during the event ([StoreOk c], or an
+   error before / after the counter moved) — every theorem quantifies over all of them.
+   Since Next runs under the generator's mutex, a history is also every interleaving of the
+   calls of any number of goroutines.  [run empty h] is the trace (event, output, store asked?),
+   [ids] the ids issued, [lease_cs] the counter values handed out successfully.
+
+   [premise S h] (C08/Proofs.v, a boolean predicate) says: every generator was created with
+   the effective step S >= 1; Next is called only on a generator whose Init has succeeded; the
+   counter values the store handed out are pairwise distinct; and no int64 overflow
+   (c*S and (c+1)*S+1 representable for every counter c handed out). *)
+From Coq Require Import ZArith List Bool Sorted.
 From FV Require Import Generated.Consts C08.Model C08.Proofs.
 Import ListNotations.
 Open Scope Z_scope.
 
-Theorem c08_store_error_step : forall g a,
-  needs_reload g = true -> (a = StoreErrBefore \/ exists c, a = StoreErrAfter c) ->
-  next g a = (OErrStore, g).
-Proof. exact next_store_error. Qed.
-Print Assumptions c08_store_error_step.
+(* "all ids issued by any number of generators sharing that store are distinct" — across
+   generators, incarnations, segments, for every interleaving and every fault pattern *)
+Theorem c08_all_distinct : forall S h,
+  premise S h = true -> NoDup (ids (run empty h)).
+Proof. exact all_distinct_thm. Qed.
+Print Assumptions c08_all_distinct.
+
+(* "... and lie inside the segment it leased": every id obtained by the current incarnation
+   of generator g lies in (c*S, (c+1)*S] for a counter c that this incarnation obtained.
+   (Histories are prefix-closed — c08_premise_prefix — so this speaks of every incarnation at
+   every moment.) *)
+Theorem c08_in_segment : forall S h g i,
+  premise S h = true -> In i (cur_ids g [] (run empty h)) ->
+  exists c, In c (cur_leases g [] (run empty h)) /\ c * S < i <= (c + 1) * S.
+Proof. exact in_own_segment_thm. Qed.
+Print Assumptions c08_in_segment.
+
+(* "each generator's ids are strictly increasing": whenever the counters an incarnation
+   obtained grow (which the adapters' guard enforces, c08_guard_monotone), so do its ids *)
+Theorem c08_increasing : forall S h g,
+  premise S h = true ->
+  StronglySorted Z.lt (cur_leases g [] (run empty h)) ->
+  StronglySorted Z.lt (cur_ids g [] (run empty h)).
+Proof. exact increasing_thm. Qed.
+Print Assumptions c08_increasing.
+
+(* "a generator recreated after a crash never re-issues an id from before the crash": no id
+   issued before the crash of g — by g or anybody else — is issued after it *)
+Theorem c08_crash_no_reissue : forall S h1 g h2 i,
+  premise S (h1 ++ ECrash g :: h2) = true ->
+  In i (ids (run empty h1)) ->
+  ~ In i (ids (run (final empty h1) (ECrash g :: h2))).
+Proof. exact crash_no_reissue_thm. Qed.
+Print Assumptions c08_crash_no_reissue.
+
+(* "a failed store call surfaces as an error without consuming or duplicating ids and
+   generation resumes correctly once the store recovers": while the segment lasts the store's
+   answer is not looked at; when the segment is used up an error answer comes back as the
+   error and leaves the generator exactly as it was, and the next successful answer c yields
+   the first id of segment c; a failed Init likewise changes nothing.  (That ids stay distinct
+   and in-segment through any pattern of failures is part of the theorems above, whose
+   histories contain the error answers.) *)
+Theorem c08_store_error : forall S g a c,
+  1 <= S -> gen_ok S g -> (forall c0, a <> StoreOk c0) -> fits S c ->
+  (needs_reload g = false -> forall a', next g a = next g a') /\
+  (needs_reload g = true ->
+     next g a = (OErrStore, g) /\
+     next g (StoreOk c) = (OId (c * S + 1), mkGen S c (c * S + 1))) /\
+  init g a = (OErrStore, g).
+Proof. exact store_error_thm. Qed.
+Print Assumptions c08_store_error.
+
+(* "store adapters refuse a counter that did not grow": fed with any sequence of non-zero raw
+   counter values, the values the guard lets through are strictly increasing (everything else
+   is answered with ErrIDOutOfRange), and what it lets through is the raw value itself *)
+Theorem c08_guard_monotone : forall raws,
+  Forall (fun r => r <> 0) raws -> StronglySorted Z.lt (somes (guard_run 0 raws)).
+Proof. exact guard_monotone_thm. Qed.
+Print Assumptions c08_guard_monotone.
+
+Theorem c08_guard_value : forall last raw,
+  fst (guard last raw) = None \/ fst (guard last raw) = Some raw.
+Proof. exact guard_value. Qed.
+Print Assumptions c08_guard_value.
+
+(* the premise is prefix-closed: the theorems hold at every moment of a history *)
+Theorem c08_premise_prefix : forall S h1 h2, premise S (h1 ++ h2) = true -> premise S h1 = true.
+Proof. exact premise_app. Qed.
+Print Assumptions c08_premise_prefix.
+
+(* non-vacuity: a history with two generators, step 3, segment roll-over, store errors before
+   and after the counter moved, a crash and a re-creation meets the premise; the model computes *)
+Definition c08_example_history : list event :=
+  [ENew 0 3; EInit 0 (StoreOk 7); ENew 1 3; EInit 1 StoreErrBefore; EInit 1 (StoreOk 8);
+   ENext 0 StoreErrBefore; ENext 0 StoreErrBefore; ENext 0 StoreErrBefore;
+   ENext 0 (StoreErrAfter 9); ENext 0 StoreErrBefore; ENext 0 (StoreOk 10);
+   ENext 1 (StoreOk 99); ECrash 0; ENew 0 3; EInit 0 (StoreOk 11); ENext 0 (StoreOk 99);
+   ENext 1 (StoreOk 99); ENext 1 (StoreOk 99); ENext 1 (StoreOk 5)]%list.
+
+Example c08_example :
+  premise 3 c08_example_history = true /\
+  map (fun x => snd (fst x)) (run empty c08_example_history) =
+  [ONone; OInitOk; ONone; OErrStore; OInitOk;
+   OId 22; OId 23; OId 24; OErrStore; OErrStore; OId 31;
+   OId 25; ONone; ONone; OInitOk; OId 34; OId 26; OId 27; OId 16]%list /\
+  lease_cs (run empty c08_example_history) = [7; 8; 10; 11; 5]%list /\
+  cur_ids 1 [] (run empty c08_example_history) = [25; 26; 27; 16]%list /\
+  cur_leases 1 [] (run empty c08_example_history) = [8; 5]%list.
+Proof. vm_compute. repeat split; reflexivity. Qed.
+
+(* the guard is switched off while lastId = 0: a raw value 0 is not protected (this is why
+   c08_guard_monotone asks for non-zero raw values; redis INCR, etcd revisions and the SQL /
+   mongo counters start at 1) *)
+Example c08_guard_zero_gap : guard_run 0 [0; 0; -1]%list = [Some 0; Some 0; Some (-1)]%list.
+Proof. reflexivity. Qed.
